@@ -229,7 +229,7 @@ End Hybrid.
 Definition column_params {bstate value grad : Type} (dv : value) (ds : bstate)
            (bq : Z -> bstate -> value -> grad -> bstate * value) (apply : value -> value -> value) (cast : value -> value)
            (R gs nb : nat) (owner : nat -> nat) (nbytes : nat) : params bstate value grad :=
-  mkParams dv ds (fun _ => bq) apply cast R gs nb owner nbytes false true.
+  mkParams dv ds (fun _ => bq) apply cast R gs nb owner nbytes true true.     (* p_global_skip = true: skip rule as repaired (F6) *)
 
 (* the per-block computation of the FullyShard-only / single-process run that corresponds to (bq, apply) when the
    quantity handed to update_params goes through cf *)
